@@ -178,11 +178,13 @@ func opPP(r *rand.Rand, n int, tier string) {
 		lit := ""
 		if r.Intn(3) != 0 {
 			lit = lits[r.Intn(len(lits))]
-			switch r.Intn(6) {
+			// expressions anchored at the end of the header: use what headers really end with
+			ends := []string{"]", "minutes]", "running", lit}
+			switch r.Intn(5) {
 			case 0:
-				lit = "\x01" + lit
+				lit = "\x01" + ends[r.Intn(len(ends))]
 			case 1:
-				lit = "\x02" + lit
+				lit = "\x02" + ends[r.Intn(len(ends))]
 			}
 		}
 		level := "2"
